@@ -69,7 +69,7 @@ int fp_is_cub(const fp_t a) {
 
 int fp_crt(fp_t c, const fp_t a) {
 	bn_t e;
-	fp_t t0, t1, t2, t3, t4, t5;
+	fp_t t0, t1, t2, t3, t4, t5, t6;
 	int f = 0, r = 0;
 
 	bn_null(e);
@@ -79,6 +79,7 @@ int fp_crt(fp_t c, const fp_t a) {
 	fp_null(t3);
 	fp_null(t4);
 	fp_null(t5);
+	fp_null(t6);
 
 	if (fp_is_zero(a)) {
 		fp_zero(c);
@@ -93,6 +94,7 @@ int fp_crt(fp_t c, const fp_t a) {
 		fp_new(t3);
 		fp_new(t4);
 		fp_new(t5);
+		fp_new(t6);
 
 		/* Make e = p. */
 		e->used = RLC_FP_DIGS;
@@ -159,10 +161,12 @@ int fp_crt(fp_t c, const fp_t a) {
 			/* Recover 3^f-root of unity, and continue algorithm. */
 			fp_copy(t3, (const dig_t *)fp_prime_get_crt());
 
-			fp_copy(c, t3);
+			/* Keep the primitive cube root of unity in a temporary: c may
+			 * alias a, which is still read below. */
+			fp_copy(t6, t3);
 			for (int i = 0; i < f - 1; i++) {
-				fp_sqr(t4, c);
-				fp_mul(c, c, t4);
+				fp_sqr(t4, t6);
+				fp_mul(t6, t6, t4);
 			}
 			fp_sqr(t1, t0);
 			fp_mul(t1, t1, t0);
@@ -178,7 +182,7 @@ int fp_crt(fp_t c, const fp_t a) {
 					fp_sqr(t4, t2);
 					fp_mul(t2, t2, t4);
 				}
-				if (fp_cmp(t2, c) == RLC_EQ) {
+				if (fp_cmp(t2, t6) == RLC_EQ) {
 					fp_sqr(t4, t3);
 					fp_mul(t5, t5, t4);
 					fp_mul(t4, t4, t3);
@@ -211,6 +215,7 @@ int fp_crt(fp_t c, const fp_t a) {
 		fp_free(t3);
 		fp_free(t4);
 		fp_free(t5);
+		fp_free(t6);
 	}
 	return r;
 }
